@@ -107,9 +107,9 @@ func init() {
 	uses("C04", []string{"T-ARITH-ALIAS", "FX-RAW", "NORM", "DECNORM", "FX-IMMUT", "ALIASGUARD", "LOWCUT", "OUTPARAM@zero-sign"})
 	uses("C06", []string{"LOWCUT", "MUSTFLOW@remainder", "QUOLEN"})
 	uses("C17", layerRound, layerDec, []string{"T-UNARY@SetPrec(", "NORM", "SIGN@GobDecode", "FX-RBW@GobDecode"})
-	uses("C02", layerRound, layerUops, layerDec, []string{"PRECWRAP@SetInt"})
+	uses("C02", layerRound, layerUops, layerDec, []string{"PRECWRAP@SetInt", "FX-ACC@Parse"})
 	uses("C03", layerRound, layerUops, layerDec, []string{"CTX@.FMA|.apply"})
-	uses("C05", layerRound, layerUops, layerDec, layerArith)
+	uses("C05", layerRound, layerUops, layerDec, layerArith, []string{"CTX@.Sqrt"})
 	uses("C08", layerRound, []string{"T-ARITH", "T-UNARY", "T-CONV", "FX-DEF", "FX-IMMUT"})
 	uses("C10", []string{"FX-ACC", "FX-DEF", "NORM", "CTX@.Set"})
 	uses("C11", layerRound, layerDec, layerUops, []string{"SHIFTW", "CONST", "SCANSHAPE", "DECNORM@dec.scan|mulAddWW|setWord", "NORM@scan", "T-UNARY@Set(|SetPrec(", "LOWCUT", "FX-RBW@(*Decimal).scan|(*Decimal).Parse|SetString|UnmarshalText|(*Decimal).Scan", "CTX@NewString"})
@@ -252,7 +252,7 @@ func initProps() {
 		"round-trip equality of digits and exponent: NOT APPLICABLE to static analysis (digit placement in fmtE/fmtF/itoa and digit accumulation in scan are loop arithmetic over run-time values); this check is a thin necessary-condition claim only",
 		"shape rules over the SSA form of the writers and the reader (constants written vs constants compared), write-set analysis, table evaluation", fxAssume)
 	p("C12",
-		[]string{"ERRNIL", "ERRDROP", "SCANSHAPE", "CONST@decMaxPow", "FX-RBW@(*Decimal).scan|(*Decimal).Parse|SetString|UnmarshalText|(*Decimal).Scan", "PREC0@scan|Parse|SetString|UnmarshalText|(*Decimal).Scan", "FX-STICKY@(*Decimal).scan|(*Decimal).Parse", "FX-ACC@scan", "DECNORM@dec.scan|mulAddWW|setWord", "SHIFTW", "WORKPREC@scan|pow2|ParseDecimal"},
+		[]string{"ERRNIL", "ERRDROP", "SCANSHAPE", "CONST@decMaxPow", "FX-RBW@(*Decimal).scan|(*Decimal).Parse|SetString|UnmarshalText|(*Decimal).Scan", "PREC0@scan|Parse|SetString|UnmarshalText|(*Decimal).Scan", "FX-STICKY@(*Decimal).scan|(*Decimal).Parse", "FX-ACC@scan", "DECNORM@dec.scan|mulAddWW|setWord", "SHIFTW", "WORKPREC@scan|pow2|ParseDecimal|workPrec"},
 		[]string{
 			"ERRNIL: on every return (per φ edge) of scan, Parse, SetString, ParseDecimal and the context wrappers a possibly non-nil error comes with the nil *Decimal and a nil error with a non-nil one (SetString: flag true exactly with a non-nil result); Parse reports success only on paths where the reader returned io.EOF after the number (no trailing characters).",
 			"ERRDROP: every error returned by a callee inside the scanners is consumed (the three explicit `_ = r.UnreadByte()` excepted).",
